@@ -678,6 +678,7 @@ package redis
 //@ func (*client).Start
 //@   prop C09 C02
 //@   requires c != nil && c.done != nil && !closed(c.done)
+//@   callpre drainRequests @the-final-drain-runs-after-the-writer-has-finished waitedfor(writeDone)
 //@   modifies all
 //@   ensures @done-closed-on-every-return closed(c.done)
 
